@@ -111,6 +111,22 @@ func build(prop string, c propCfg, cover bool) (string, error) {
 	if cover {
 		args = append(args, "-cover", "-coverpkg=github.com/jcmturner/gokrb5/v8/...")
 	}
+	if alt := os.Getenv("VERIF_REPO"); alt != "" {
+		// development aid (seeded-change campaign): build against a scratch copy of the repository instead of /repo
+		mf := filepath.Join(bdir, fmt.Sprintf("alt-%d.mod", os.Getpid()))
+		gm, err := os.ReadFile(filepath.Join(harnessDir, "go.mod"))
+		if err != nil {
+			return "", err
+		}
+		os.WriteFile(mf, []byte(strings.Replace(string(gm), "=> /repo/v8", "=> "+alt+"/v8", 1)), 0o644)
+		gs, _ := os.ReadFile(filepath.Join(harnessDir, "go.sum"))
+		os.WriteFile(strings.TrimSuffix(mf, ".mod")+".sum", gs, 0o644)
+		defer os.Remove(mf)
+		defer os.Remove(strings.TrimSuffix(mf, ".mod") + ".sum")
+		out = filepath.Join(bdir, fmt.Sprintf("%s-alt-%d.test", strings.ToLower(prop), os.Getpid()))
+		args[6] = out
+		args = append(args, "-modfile="+mf)
+	}
 	args = append(args, "./props/"+strings.ToLower(prop))
 	cmd := exec.Command(goBin, args...)
 	cmd.Dir = harnessDir
@@ -278,6 +294,10 @@ func main() {
 	}
 	start := time.Now()
 	wdir := filepath.Join(verifDir, ".work", prop)
+	altRepo := os.Getenv("VERIF_REPO") != ""
+	if altRepo {
+		wdir = filepath.Join(verifDir, ".work", fmt.Sprintf("%s-alt-%d", prop, os.Getpid()))
+	}
 	os.RemoveAll(wdir)
 	os.MkdirAll(wdir, 0o755)
 	os.MkdirAll(filepath.Join(verifDir, "evidence"), 0o755)
@@ -449,6 +469,9 @@ func main() {
 		}
 		nviol++
 		rp := filepath.Join(verifDir, "replay", fmt.Sprintf("%s-%016x.json", prop, vh.H64(fp)))
+		if altRepo {
+			rp = filepath.Join(wdir, fmt.Sprintf("replay-%016x.json", vh.H64(fp)))
+		}
 		only := ""
 		if m, ok := v.Detail.(map[string]any); ok {
 			if s, ok := m["case"].(string); ok {
@@ -512,7 +535,14 @@ func main() {
 	}
 	if replay == "" {
 		b, _ := json.MarshalIndent(ev, "", " ")
-		os.WriteFile(filepath.Join(verifDir, "evidence", prop+".json"), b, 0o644)
+		if altRepo {
+			os.WriteFile(filepath.Join(wdir, "evidence.json"), b, 0o644)
+		} else {
+			os.WriteFile(filepath.Join(verifDir, "evidence", prop+".json"), b, 0o644)
+		}
+	}
+	if altRepo {
+		defer os.Remove(bin)
 	}
 
 	for _, l := range out {
